@@ -17,6 +17,8 @@ FAST_QUERIES = list(O.QUERIES)
 PRODUCERS = [q for q, (_, role) in O.QUERIES.items() if role == "P"]
 CONSUMERS = [q for q, (_, role) in O.QUERIES.items() if role in ("C", "X")]
 EXPORTS = [q for q, (_, role) in O.QUERIES.items() if role == "X"]
+ISOLATED_SHARE = 0.25
+FORK_OPS = ["deepcopy", "pickle", "reload"]
 RADII = [1.5, 3.0, 3.8, 6.0, 9.0]
 BOUNDS = [
     [[-1, -1, -1], [1, 1, 1]],
@@ -116,7 +118,7 @@ def choose_step(rng, cfg, fb, sim):
         if fb["changed"]:
             r = rng.random()
             if r < 0.3 and cfg["p_fork"] > 0:
-                return {"h": fb["h"], "op": rng.choice(sorted(O.FORKS))}
+                return {"h": fb["h"], "op": rng.choice(FORK_OPS)}
             if r < 0.8:
                 return {"h": fb["h"], "op": rng.choice(CONSUMERS)}
     r = rng.random()
@@ -124,7 +126,7 @@ def choose_step(rng, cfg, fb, sim):
         return {"h": hi, "op": rng.choice(["toH", "toR", "toH", "toR", "normH"])}
     r -= cfg["p_mut"]
     if r < cfg["p_fork"]:
-        return {"h": hi, "op": rng.choice(sorted(O.FORKS))}
+        return {"h": hi, "op": rng.choice(FORK_OPS)}
     r -= cfg["p_fork"]
     if r < cfg["p_fault"]:
         return _fault_step(rng, cfg, hi, sim)
@@ -150,11 +152,11 @@ class RunResult:
         self.status, self.stratum, self.index, self.error = status, stratum, index, error
 
 
-def _drive(spec, A, stratum, index, producer):
+def _drive(spec, A, stratum, index, producer, ref_mode="inproc"):
     """Common loop: `producer(sim, fb)` yields the next step or None."""
-    schedule = {"source": spec, "args": A, "steps": []}
+    schedule = {"source": spec, "args": A, "steps": [], "ref": ref_mode}
     try:
-        sim = Sim(spec, A)
+        sim = Sim(spec, A, ref_mode=ref_mode)
     except sources.SourceError as e:
         return RunResult(schedule, None, None, "source_failed", stratum, index, str(e))
     fb = None
@@ -167,7 +169,15 @@ def _drive(spec, A, stratum, index, producer):
             fb = sim.step(st)
     except Violation as v:
         return RunResult(schedule, sim, v, "violation", stratum, index)
+    finally:
+        sim.close()
     return RunResult(schedule, sim, None, "ok", stratum, index)
+
+
+def ref_mode_for(rng):
+    """Isolated reference (one pristine process per reference query) for a
+    seeded share of the runs; the in-process reference for the rest."""
+    return "isolated" if rng.random() < ISOLATED_SHARE else "inproc"
 
 
 def random_run(verif_seed, index, stratum="random"):
@@ -175,6 +185,7 @@ def random_run(verif_seed, index, stratum="random"):
     spec = sources.gen_spec(rng)
     cfg = gen_config(rng, spec)
     A = gen_args(rng, cfg["large"])
+    ref_mode = ref_mode_for(rng)
     state = {"n": 0, "audit": None}
 
     def producer(sim, fb):
@@ -185,7 +196,7 @@ def random_run(verif_seed, index, stratum="random"):
             state["audit"] = iter(audit_for(rng, cfg, sim))
         return next(state["audit"], None)
 
-    return _drive(spec, A, stratum, index, producer)
+    return _drive(spec, A, stratum, index, producer, ref_mode)
 
 
 # ------------------------------------------------------------- templates
@@ -225,6 +236,7 @@ def template_run(verif_seed, index, stratum="template"):
                 break
         spec["via"] = via
     A = gen_args(rng, is_large(spec))
+    ref_mode = ref_mode_for(rng)
     plan = []
     if q1:
         plan.append({"h": 0, "op": q1})
@@ -245,7 +257,7 @@ def template_run(verif_seed, index, stratum="template"):
             state["rest"] = iter(rest)
         return next(state["rest"], None)
 
-    return _drive(spec, A, stratum, index, producer)
+    return _drive(spec, A, stratum, index, producer, ref_mode)
 
 
 # ------------------------------------------------- fault-point templates
